@@ -209,6 +209,19 @@ def props(name, g, td, B, params):
                 lconds.append(s_or(T.s_isinf(lim[b, 0]), le(T.s_mul(d0, 2), lim[b, 0])))
         P("time windows: either absent ([0, inf], no service) or ordered, reachable from the depot and leaving time to serve and return before max_time", all_(conds))
         P("distance limit: infinite or large enough to visit every customer alone (2 * d(depot, j) <= limit)", all_(lconds))
+        if preset in ("single_feat", "single_feat_otw"):
+            rows_ok = []
+            for b in range(B):
+                O_b = td["open_route"].a[b, 0]
+                TW_b = T.s_isfinite(tw[b, 1, 1])
+                L_b = T.s_isfinite(lim[b, 0])
+                B_b = any_([gt(db[b, j], 0) for j in range(1, nn)])
+                cnt = sum_int([O_b, TW_b, L_b, B_b])
+                ok = T.s_le(cnt, 1)
+                if preset == "single_feat_otw":
+                    ok = s_or(ok, s_and(s_and(O_b, TW_b), s_and(s_not(L_b), s_not(B_b))))
+                rows_ok.append(ok)
+            P(f"preset {preset}: every instance carries at most one of the features O / TW / L / B" + (" or exactly O+TW" if preset == "single_feat_otw" else ""), all_(rows_ok))
         if want is not None:
             O_, TW_, L_, B_ = "O" in want, "TW" in want, "L" in want.replace("TW", ""), "B" in want
             P(f"preset {preset}: open_route flag", all_([eq(x, O_) if not isinstance(x, bool) else x == O_ for x in _vals(td["open_route"])]))
@@ -253,15 +266,40 @@ def gen_job(job_id, name, params=None, B=2, source_filter=None):
     ctx.stubs.add("samplers (rand, randint, Uniform/Normal.sample, randperm, multinomial): fresh variables constrained to the documented support (every outcome)")
 
     def cexb(E_, neg):
-        if E_.check(neg) != z3.sat:
-            return []
-        m = E_.model()
-        draws = []
+        def request(m, kind_):
+            draws = []
+            for kind, t in T.RANDOM_LOG:
+                vals = [core.model_value(m, x) for x in t.a.reshape(-1)]
+                draws.append({"kind": kind, "shape": list(t.a.shape), "values": [str(v) for v in vals]})
+            return {"kind": "script", "path": core.ROOT + "/vf/torch_side", "module": "gen_side", "func": "run_gen", "model_kind": kind_, "mode": "C18",
+                    "params": {"name": name, "params": params, "B": B, "draws": draws}}
+
+        out = []
+        # candidate 1: all points of an instance on one horizontal line -> the distance abstraction is exact (|dx|), so the
+        # real run computes the very distances the model assumed
+        col = []
         for kind, t in T.RANDOM_LOG:
-            vals = [core.model_value(m, x) for x in t.a.reshape(-1)]
-            draws.append({"kind": kind, "shape": list(t.a.shape), "values": [str(v) for v in vals]})
-        return [{"kind": "script", "path": core.ROOT + "/vf/torch_side", "module": "gen_side", "func": "run_gen", "model_kind": "plain", "mode": "C18",
-                 "params": {"name": name, "params": params, "B": B, "draws": draws}}]
+            if kind in ("uniform", "rand") and t.a.ndim >= 2 and t.a.shape[-1] == 2:
+                ys = t.a[..., 1].reshape(t.a.shape[0], -1) if t.a.ndim >= 3 else t.a[..., 1].reshape(-1, 1)
+                anchor = [row[0] for row in ys]
+                col += [y == anchor[i] for i, row in enumerate(ys) for y in row[1:]]
+        ys_all = [t.a[..., 1] for kind, t in T.RANDOM_LOG if kind in ("uniform", "rand") and t.a.ndim >= 2 and t.a.shape[-1] == 2]
+        if len(ys_all) > 1:  # depot and customers drawn separately: same line across draws
+            for other in ys_all[1:]:
+                first = ys_all[0].reshape(ys_all[0].shape[0], -1)
+                oth = other.reshape(other.shape[0], -1)
+                col += [y == first[i][0] for i in range(min(len(first), len(oth))) for y in oth[i]]
+        if name == "cvrptw":  # opaque products are exact for these factor values
+            for kind, t in T.RANDOM_LOG:
+                if kind == "rand":
+                    col += [z3.Or(x == 0, *[x == c_ for c_ in SC.UNIT_EXACT]) for x in t.a.reshape(-1)]
+        if col:
+            E_._sync_axioms()
+            if E_.check(neg, *col, *DS.collinear_axioms()) == z3.sat:
+                out.append(request(E_.model(), "collinear"))
+        if E_.check(neg) == z3.sat:
+            out.append(request(E_.model(), "plain"))
+        return out
 
     def harness():
         DS.FULL_SANDWICH = True
